@@ -283,11 +283,10 @@ func refSelect(set []*triple.Triple, lc LookupCall, o OptSpec) []*triple.Triple 
 		// window: closed interval on temporal triples, immutable always kept
 		if t.Predicate().Type() == predicate.Temporal {
 			ta, _ := t.Predicate().TimeAnchor()
-			n := ta.UnixNano()
-			if o.Lo != nil && n < *o.Lo {
+			if o.Lo != nil && ta.Before(time.Unix(0, *o.Lo)) {
 				continue
 			}
-			if o.Hi != nil && n > *o.Hi {
+			if o.Hi != nil && ta.After(time.Unix(0, *o.Hi)) {
 				continue
 			}
 		}
@@ -313,12 +312,12 @@ func refSelect(set []*triple.Triple, lc LookupCall, o OptSpec) []*triple.Triple 
 		}
 		return out
 	case "latest":
-		best := map[string]int64{}
+		best := map[string]time.Time{}
 		for _, t := range cand {
 			if p := fieldPred(t, ffield); p != nil && p.Type() == predicate.Temporal {
 				ta, _ := p.TimeAnchor()
-				if b, ok := best[string(p.ID())]; !ok || ta.UnixNano() > b {
-					best[string(p.ID())] = ta.UnixNano()
+				if b, ok := best[string(p.ID())]; !ok || ta.After(b) {
+					best[string(p.ID())] = *ta
 				}
 			}
 		}
@@ -326,7 +325,7 @@ func refSelect(set []*triple.Triple, lc LookupCall, o OptSpec) []*triple.Triple 
 		for _, t := range cand {
 			if p := fieldPred(t, ffield); p != nil && p.Type() == predicate.Temporal {
 				ta, _ := p.TimeAnchor()
-				if ta.UnixNano() == best[string(p.ID())] {
+				if ta.Equal(best[string(p.ID())]) {
 					out = append(out, t)
 				}
 			}
